@@ -18,6 +18,8 @@ import GoMC.Model.Queue
 import GoMC.Model.PlayerList
 import GoMC.Spec.FifoClose
 import GoMC.Lemmas.Queue
+import GoMC.Model.TypeCache
+import GoMC.Lemmas.TypeCache
 namespace GoMC.Props.C20
 open GoMC.Model GoMC.Model.Queue GoMC.Lemmas.Queue
 
@@ -381,6 +383,44 @@ theorem C20_chan_refines_spec {cap : Nat} (hpos : 1 ≤ cap) {s s' : CState} {a 
       · rename_i hc
         injection hs with hs; subst hs; simp [hc, runCalls, apply, absC]
     all_goals (first | (cases hs; done) | (injection hs with hs; subst hs; simp [runCalls, absC]))
+
+/-! ### the per-type cache (nbt `cachedTypeFields`) is a pure memo table -/
+
+/-- whatever the interleaving of lookups and fills by any number of threads: every entry of the table, and every
+table `cachedTypeFields t` hands out, is `typeFields t` — a function of the type only -/
+theorem C20_cache_pure {Ty F : Type} [DecidableEq Ty] (tf : Ty → F) {s : TypeCache.State Ty F}
+    (h : TypeCache.Reachable tf s) :
+    (∀ t v, s.cache t = some v → v = tf t) ∧
+    (∀ tid t v, s.pc tid = .idle (some (t, v)) → v = tf t) :=
+  ⟨(GoMC.Lemmas.TypeCache.Inv_reachable h).entries, (GoMC.Lemmas.TypeCache.Inv_reachable h).returned⟩
+
+/-- an entry is never replaced or removed (all users of a type share one table) -/
+theorem C20_cache_stable {Ty F : Type} [DecidableEq Ty] (tf : Ty → F) {s s' : TypeCache.State Ty F} {a : TypeCache.Act Ty}
+    (hs : TypeCache.step tf s a = some s') {t : Ty} {v : F} (hv : s.cache t = some v) : s'.cache t = some v :=
+  GoMC.Lemmas.TypeCache.cache_stable hs hv
+
+/-- hence the decoder's field lookup — exact spelling first, otherwise the first case-insensitive match; a pure
+function of the table, it writes nothing — gives every thread, at any time, the answer computed from the type -/
+theorem C20_lookup_pure {Ty : Type} [DecidableEq Ty] (tf : Ty → TypeCache.Fields) {s : TypeCache.State Ty TypeCache.Fields}
+    (h : TypeCache.Reachable tf s) (tid : Nat) (t : Ty) (v : TypeCache.Fields) (hp : s.pc tid = .idle (some (t, v)))
+    (tn : String) : TypeCache.findField v tn = TypeCache.findField (tf t) tn := by
+  rw [(C20_cache_pure tf h).2 tid t v hp]
+
+/-- two threads race on a cold entry: both compute, the second `LoadOrStore` keeps the first entry, both return it -/
+example : ∃ s, TypeCache.Reachable (fun n : Nat => n * 2) s ∧ s.cache 3 = some 6 ∧
+    s.pc 0 = .idle (some (3, 6)) ∧ s.pc 1 = .idle (some (3, 6)) := by
+  have s1 := TypeCache.Reachable.step (tf := fun n : Nat => n * 2) (.start 0 3) .init rfl
+  have s2 := TypeCache.Reachable.step (.start 1 3) s1 rfl
+  have s3 := TypeCache.Reachable.step (.run 0) s2 rfl
+  have s4 := TypeCache.Reachable.step (.run 1) s3 rfl
+  have s5 := TypeCache.Reachable.step (.run 0) s4 rfl
+  have s6 := TypeCache.Reachable.step (.run 1) s5 rfl
+  have s7 := TypeCache.Reachable.step (.run 1) s6 rfl
+  have s8 := TypeCache.Reachable.step (.run 0) s7 rfl
+  exact ⟨_, s8, rfl, rfl, rfl⟩
+
+example : TypeCache.findField ["ab", "AB", "x7"] "aB" = some 0 ∧ TypeCache.findField ["ab", "AB", "x7"] "AB" = some 1 ∧
+    TypeCache.findField ["ab", "AB", "x7"] "X7" = some 2 ∧ TypeCache.findField ["ab"] "b" = none := by decide
 
 /-! ### player list -/
 
